@@ -73,7 +73,7 @@ fn compare(
 
 fn check_type<T: Jetty>(tname: &str, ctx: &Ctx, shard: usize, nshards: usize, tindex: u64) -> Acc {
     let mut acc = Acc::new();
-    let per = ctx.n(60, 3000);
+    let per = ctx.n(60, 30000);
     let funcs = c01_funcs();
     let u = unit_roundoff::<T>();
     ndv_core::track::set_u(u);
@@ -113,6 +113,7 @@ fn check_type<T: Jetty>(tname: &str, ctx: &Ctx, shard: usize, nshards: usize, ti
                 };
                 let class = format!("{}|{}|{}|{}|{}", f.short(), tname, rname, STYLES[style], presence_key(&pres_in));
                 let name = f.name();
+                ndv_core::evlog::log_unary("C01", tname, *f, &b, &slots, &got, T::IS_F32);
                 compare(&mut acc, &name, tname, &class, &b, u, &got, &want, &mag, nontrivial, || {
                     json!({"type": tname, "shape": shape.name(), "func": name, "x_slots": floats(&slots), "x_slots_hex": hexes(&slots), "absent_mask": mask, "got": floats(&got), "want": floats(&want)})
                 });
